@@ -415,6 +415,6 @@ func (c *C07) concurrentCallers(x *engine.Ctx) *engine.Violation {
 	}
 	x.S.Eval(int64(calls))
 	x.S.Count("fault:schedule/interleaved-callers-of-one-proving-system")
-	res, sim, err := service.RunCallers(t, x.Log, x.S, callers)
+	res, sim, err := service.RunCallersWith([]int{service.StratPCT, service.StratPCT, service.StratPCT, service.StratSticky, service.StratUniform, service.StratStarve}, t, x.Log, x.S, callers)
 	return callersVerdict(x, "C07", fmt.Sprintf("%d prover calls on %s", calls, s.Key()), res, sim, err)
 }
